@@ -239,7 +239,7 @@ def boundary_float_texts(seed, quick):
         "0x0.00000000000018p-1022", "0x0.fffffffffffff8p-1022", "0x1.fffffffffffffp1023", "0x1.fffffffffffff8p1023", "0x.8p1025", "-0x1p1024",
         "-0x1.fffffffffffff8p1023", "-0x0p0", "0x0p0", "+0x1P+0001")
     # ---- seeded families: halfway points between adjacent doubles, shortest representations, hex
-    n = 120 if quick else 1500
+    n = 120 if quick else 1000
     for i in range(n):
         b = random_double(rnd)
         x = bits2f(b)
@@ -315,10 +315,18 @@ def run(ctx):
 
     # (G) driver-built float boundary texts, classified by the spec
     texts = boundary_float_texts(ctx.seed, q)
-    with open(os.path.join(ctx.specdir, "numlit_texts.ndjson"), "w") as fh:
-        for t in texts:
-            fh.write(json.dumps(list(t)) + "\n")
-    rf = ctx.tlc("NumLit_genfile.tla", "NumLit_gen_file.cfg", timeout=MC_TIMEOUT, label="gen")
+    bf = []
+    for k in range(0, len(texts), 5000):        # one TLC run per 5000 texts keeps the JSON table small
+        part = texts[k:k + 5000]
+        with open(os.path.join(ctx.specdir, "numlit_texts.ndjson"), "w") as fh:
+            for t in part:
+                fh.write(json.dumps(list(t)) + "\n")
+        rf = ctx.tlc("NumLit_genfile.tla", "NumLit_gen_file.cfg", timeout=MC_TIMEOUT, label="gen")
+        got = list(iter_cases(rf.out, "num"))
+        if set("".join(c["t"]) for c in got) != set(part):
+            raise vlib.Infra("the spec classified %d of %d boundary texts" % (len(got), len(part)))
+        bf += got
+        del rf
     seen = set()
     state = {"next_id": 0, "nontriv": 0, "total": 0, "by_src": {}}
 
@@ -343,11 +351,6 @@ def run(ctx):
         if chunk:
             yield chunk
 
-    bf = list(iter_cases(rf.out, "num"))
-    got = set("".join(c["t"]) for c in bf)
-    if got != set(texts):
-        raise vlib.Infra("the spec classified %d of %d boundary texts (missing e.g. %r)" % (len(got), len(texts), sorted(set(texts) - got)[:3]))
-    del rf
     for chunk in take(bf, lambda c: "bnd-float"):
         ctx.add_samples([{k: (v if not isinstance(v, list) else "".join(v)) for k, v in chunk[len(chunk) // 2].items()}], 1)
         ctx.replay("numlit", chunk, "replay of driver-built, spec-classified float boundary texts through benchfmt.Reader")
